@@ -21,14 +21,15 @@ ARRIVALS = ['identity','reversed','interleave','rotate']
 
 def _classify(v): return v['what'].split(':')[0][:100]
 
-@obligation('C01','emulated_configs', bounds="10 programs x experiment seed {1,7} x maxtasksperchunk in [0,4] (z3 int through the real ChunkTasks) x 4 arrival orders of worker outputs; second construction+run equals the first",
-            functions=FUNCS, params=lambda tier: [dict(prog=p, seed=s) for p in exp.PROGRAMS for s in (1,7)], classify=_classify)
+@obligation('C01','emulated_configs', bounds={'quick':"11 programs x experiment seed {1,7} x maxtasksperchunk in [0,4] (z3 int through the real ChunkTasks) x 4 arrival orders of worker outputs; second construction+run equals the first",
+                                              'thorough':"experiment seeds {1,7,13,42}; maxtasksperchunk in [0,7]"},
+            functions=FUNCS, params=lambda tier: [dict(prog=p, seed=s) for p in exp.PROGRAMS for s in ((1,7) if tier == 'quick' else (1,7,13,42))], classify=_classify, budget={'quick':60,'thorough':900})
 def emulated_configs(sym, prog, seed):
     ref = exp.comparable(exp.run_real(prog, seed=seed, processes=1, maxchunksperchild=0, maxtasksperchunk=0))
     again = exp.comparable(exp.run_real(prog, seed=seed, processes=1, maxchunksperchild=0, maxtasksperchunk=0))
     d = exp.diff(ref, again)
     sym.check(d is None, f"second construction and run differs from the first: {d}")
-    mt = sym.int('mt', 0, 4)
+    mt = sym.int('mt', 0, 4 if os.environ.get('VERIF_TIER_EFFECTIVE','quick') == 'quick' else 7)
     arrival = ARRIVALS[unwrap(sym.int('arrival', 0, 3))]
     got = exp.comparable(exp.emulate(prog, seed=seed, mt=mt, arrival=arrival))
     d = exp.diff(ref, got)
@@ -42,10 +43,10 @@ def real_params(tier):
     cfgs = [(2,1,0),(3,0,2),(2,2,1),(2,0,4),(3,1,3)]
     if tier == 'quick':
         return [dict(prog=progs[(seed+i*3) % len(progs)], cfg=cfgs[(seed+i) % len(cfgs)]) for i in range(2)]
-    return [dict(prog=progs[(seed+i) % len(progs)], cfg=cfgs[(seed+i) % len(cfgs)]) for i in range(10)]
+    return [dict(prog=pr, cfg=cfgs[(seed+i+j*2) % len(cfgs)]) for i,pr in enumerate(progs) for j in range(2)]
 
 @obligation('C01','real_multiprocess', bounds={'quick':"2 real spawn-based runs (program and (processes,maxchunksperchild,maxtasksperchunk) picked by VERIF_SEED) must equal the in-process Result and the emulation",
-                                               'thorough':"10 real runs"},
+                                               'thorough':"every program under 2 of the 5 configurations (22 real runs)"},
             functions=FUNCS, params=real_params, classify=_classify, raw=True, budget={'quick':150,'thorough':600})
 def real_multiprocess(tier, param, replay_model=None):
     prog, (p, mc, mt) = param['prog'], param['cfg']
